@@ -457,6 +457,12 @@ func (r *Run) callSSA(caller *frame, callpos token.Pos, fn *ssa.Function, args [
 		r.noteFn(fn, true)
 		return ic(r, fr, args)
 	}
+	if r.stubFuncs != nil {
+		if m, ok := r.stubFuncs[fn.String()]; ok {
+			r.noteFn(fn, true)
+			return r.call(caller, callpos, m, args)
+		}
+	}
 	if r.stubs != nil && r.stubs[fn.String()] {
 		r.noteFn(fn, true)
 		return noop(r, fr, args)
